@@ -162,6 +162,7 @@ type Gen struct {
 	chased      bool
 	runout      bool
 	nextOp      *Op
+	noPay       map[int]bool // owners without a payment address
 	pendingOps  []*Op // further queued ops (one per following draw)
 	proposals   int
 	chaseRoll   bool
@@ -259,7 +260,13 @@ func (g *Gen) setup() {
 			}
 		}
 	}
-	for _, a := range append(append([]*Actor{}, w.Owners...), w.Sponsors...) {
+	g.noPay = map[int]bool{}
+	for i, a := range append(append([]*Actor{}, w.Owners...), w.Sponsors...) {
+		if i > 0 && i < len(w.Owners) && len(w.Sponsors) > 0 && NewRng(g.e.W.Cfg.Seed).Sub(fmt.Sprintf("nopay%d", i)).Chance(0.12) {
+			// an owner that never registers a payment address: it can only store through a sponsor
+			g.noPay[a.Idx] = true
+			continue
+		}
 		b1 = append(b1, Op{K: "set_payaddr", A: a.Idx})
 	}
 	for _, a := range w.Advs {
@@ -705,7 +712,13 @@ func (g *Gen) genKind(k string) *Op {
 				}
 			}
 		}
-		if len(w.Sponsors) > 0 && r.Chance(0.15) {
+		if len(w.Sponsors) > 0 && (r.Chance(0.15) || g.noPay[owner.Idx]) {
+			if g.noPay[owner.Idx] {
+				e.probe("store_for_owner_without_payment_address")
+				if r.Chance(0.5) {
+					op.Size = uint64(r.Range(1, 200)) // small enough for a termination refund of zero
+				}
+			}
 			sp := g.pickActor(w.Sponsors)
 			op.Pay = sp.Idx + 1
 			op.A = sp.Idx
